@@ -199,6 +199,8 @@ struct Engine
         }
         cur_pre = pre;
         cur_op = OP_NAME[k];
+        cnt_copies_at_begin = Cnt8::copies();
+        cnt_copy_expect = 0;
         // filling a vector up to what a growing reserve() promised: bounds violations there are also C10's
         out().extra_props = ((k == OP_EMPLACE_BACK || k == OP_FILL) && ma && ma->grown_by_reserve) ? "C10" : "";
         set_ctx(case_no, step, OP_NAME[k], pre.c_str(), death_props(k, ma, mb).c_str(), args.c_str());
@@ -210,6 +212,15 @@ struct Engine
         if (out().verbose) emit(J().kv("t", "op").kv("case", case_no).kv("step", step).kv("op", line).str());
     }
     std::string cur_pre, cur_op;
+    // objects of the type with user-provided copy / trivial move operations that the running operation has to copy
+    uint64_t cnt_copies_at_begin = 0;
+    size_t cnt_copy_expect = 0;
+    static size_t cnt_objects(const MVec& m)
+    {
+        size_t n = 0;
+        for (auto& e : m.e) n += objects_of_type(Cfg::fields(), e.f, "Cnt8");
+        return n;
+    }
 
     void viol(const char* props, const char* kind, const std::string& detail) { violation(props, kind, detail, cur_op.c_str(), cur_pre.c_str()); }
 
@@ -328,6 +339,9 @@ struct Engine
     void check_all(const char* stage)
     {
         (void)stage;
+        if (cnt_copy_expect != 0 && Cnt8::copies() - cnt_copies_at_begin < cnt_copy_expect)
+            viol("C09,C06", "copy_bypasses_copy_operations", fmt("%s had to copy %zu objects of a type with user-provided copy / trivial move operations, its copy constructor / copy assignment ran %" PRIu64 " times", cur_op.c_str(), cnt_copy_expect, Cnt8::copies() - cnt_copies_at_begin));
+        cnt_copy_expect = 0;
         if (out().viol_in_case) { cut = true; return; }
         ledger().check_all_canaries();
         size_t expect_tracked = 0, expect_tracked_optional = 0;
@@ -788,6 +802,7 @@ struct Engine
         {
             begin_op(OP_COPY_CONSTRUCT, src, -1, fmt("v%d<-v%d", dst, src));
             const MVec sm = s[src].m;
+            cnt_copy_expect = cnt_objects(sm);
             const auto a = before();
             {
                 LibCall lc;
@@ -853,6 +868,7 @@ struct Engine
             MVec& dm = s[dst].m;
             const auto a = before();
             const bool self = dst == src;
+            if (!self) cnt_copy_expect = cnt_objects(sm);
             if (!self && !dm.moved_from)
             {
                 if (sm.e.size() > dm.e.size()) cf.assign_grow = true;
